@@ -18,6 +18,11 @@ Lemma tie_scalars : forall (F : Type) (K : Ops F) (alpha eps s mx mn : F),
   sign_rule K mx mn = svd_sign_rule K mx mn.
 Proof. intros. repeat split; reflexivity. Qed.
 
+(* the cut-off threshold, in whichever of the two variants the source currently uses *)
+Lemma tie_threshold : forall (F : Type) (K : Ops F) (eps smax : F) (p : nat),
+  whiten_threshold K fmp_cutoff_relative eps p smax = fmp_threshold K eps (Z.of_nat p) smax.
+Proof. reflexivity. Qed.
+
 Lemma tie_structure :
   whiten_cov_left_is_conj_transpose = true /\ whiten_solver = "full"%string /\
   whiten_Tinv_is_inv_with_pinv_fallback = true /\
